@@ -16,6 +16,7 @@ THEOREMS = [
     "Mpir.Powm.powlo_spec",
     "Mpir.Powm.binvert_correct",
     "Mpir.Powm.n_pow_ui_spec",
+    "Mpir.Powm.powm_ui_spec",
 ]
 TRUSTED = ["hand-written models lean/Mpir/Model/Powm.lean (tied by correspondence on every run): mpz_powm follows mpz/powm.c "
            "statement by statement with the result kept as limb vector + size; mpn_powm/powlo/pow_1/n_pow_ui/powm_ui follow the C "
